@@ -246,13 +246,13 @@ func cmdCheck(args []string) {
 		}
 		for _, o := range counted {
 			bn := baseName(o.Name)
-			if be, ok := baseline[bn]; ok && be.Status == "undecided" && o.Class == "panic" && !kf[bn] && o.Status == "" {
+			if be, ok := baseline[bn]; ok && be.Status == "undecided" && !kf[bn] && o.Status == "" {
 				o.Status = "unknown"
 				o.Detail = "not re-run in the quick tier (undecided in the committed baseline)"
 			}
 		}
 	}
-	DischargeAll(counted, dir, timeout, 12)
+	DischargeAll(counted, dir, timeout, 6)
 	// an obligation the committed baseline lists as proved that only timed out (machine under load) is retried on
 	// its own with a longer limit before anything is concluded from it
 	if !*writeBaseline {
@@ -421,7 +421,9 @@ func cmdCheck(args []string) {
 			report(g, "the function under contract no longer exists (renamed or removed); its obligations cannot be discharged")
 			continue
 		}
-		if cls != "panic" && cls != "pre" && cls != "det" {
+		// obligations keyed to a contract clause must not vanish; obligations keyed to a piece of code (a possible
+		// panic site, a call's precondition, one write under a frame) vanish together with that code, which is no violation
+		if cls != "panic" && cls != "pre" && cls != "det" && cls != "frame" && cls != "errprop" {
 			g := &groupResult{Name: n, Class: cls, Func: fnName, Status: "unknown"}
 			report(g, "a contract obligation present on the unchanged tree is no longer generated (loop / return / anchor it is keyed to has gone)")
 		}
